@@ -225,8 +225,169 @@ pub fn shadow_family(both: bool, seed: u64) -> Vec<String> {
     out
 }
 
+// ------------------------------------------------------------------------------------------------
+// fixed families whose members are built rule by rule: a candidate rule stays when the real pest_meta accepts the grammar with it, the
+// emitted code is a Rust file and the real VM returns on every short input without touching the call limit
+// ------------------------------------------------------------------------------------------------
+fn grammar_ok(text: &str) -> bool {
+    pest::set_call_limit(None);
+    matches!(catch(|| pest_meta::parse_and_optimize(text)), Ok(Ok(_))) && derive_tokens(text).ok().and_then(|ts| syn::parse2::<syn::File>(ts).ok()).is_some()
+        && vm_terminates(text, 3)
+}
+fn keep_valid(fixed: Vec<GRule>, cands: Vec<GRule>) -> Vec<GRule> {
+    let mut all = fixed.clone();
+    all.extend(cands.iter().cloned());
+    if grammar_ok(&pest_grammar(&all)) { return all; }
+    let mut g = fixed;
+    for c in cands {
+        g.push(c);
+        if !grammar_ok(&pest_grammar(&g)) { g.pop(); }
+    }
+    g
+}
+fn rule(name: &str, ty: Ty, e: GE) -> GRule { GRule { name: name.to_string(), ty, e } }
+fn opt(e: GE) -> GE { GE::Opt(bx(e)) }
+fn rep(e: GE) -> GE { GE::Rep(bx(e)) }
+fn rep1(e: GE) -> GE { GE::Rep1(bx(e)) }
+fn cho(a: GE, b: GE) -> GE { GE::Cho(bx(a), bx(b)) }
+fn tag(t: &str, e: GE) -> GE { GE::Tag(t.to_string(), bx(e)) }
+const ALL_TYS: [Ty; 5] = [Ty::Normal, Ty::Silent, Ty::Atomic, Ty::Compound, Ty::NonAtomic];
+
+/// the per-built-in differential: every hard-coded built-in bare, in a sequence, under `?`, `*`, `+`, twice in an atomic rule, under
+/// a negative predicate (what the rule consumes, not only whether it accepts, is compared: the pairs carry the end positions)
+pub fn builtin_family() -> Vec<String> {
+    genread::FIXED_BUILTINS.iter().map(|n| {
+        let b = || idn(n);
+        let cands = vec![
+            rule("r2", Ty::Normal, seq_of(vec![opt(b()), lit1("x")])),
+            rule("r3", Ty::Normal, seq_of(vec![rep(b()), lit1("x")])),
+            rule("r4", Ty::Normal, seq_of(vec![rep1(b()), opt(lit1("x"))])),
+            rule("r5", Ty::Atomic, seq_of(vec![b(), b(), opt(lit1("x"))])),
+            rule("r6", Ty::Normal, seq_of(vec![GE::Neg(bx(b())), idn("ANY"), opt(b())])),
+            rule("r7", Ty::Compound, seq_of(vec![rule_ref_or(b()), lit1("x"), b()])),
+        ];
+        // r0 / r1 first and unconditionally (the two rules this differential has always had)
+        pest_grammar(&keep_valid(vec![rule("r0", Ty::Normal, b()), rule("r1", Ty::Normal, seq_of(vec![b(), lit1("x")]))], cands))
+    }).collect()
+}
+fn rule_ref_or(e: GE) -> GE { cho(seq_of(vec![lit1("x"), lit1("x")]), e) }
+
+/// the explicit-trivia differential (hint: trivia rules are ordinary rules as well).  One grammar per pair (modifier of WHITESPACE,
+/// modifier of COMMENT); each has, for every modifier of the CALLER and each of the two trivia rules, a rule that names the trivia rule
+/// explicitly between two literals, plus callers that reach it through helper rules of other modifiers, under `?` / `*` / `+` / `|`
+/// and under both predicates - next to the implicit skipping that every non-atomic sequence of the grammar does anyway.
+/// `all`: the 25 pairs; otherwise a Latin square over the four modifiers inside class H chosen by the seed, and the pair (`!`, `!`).
+pub fn trivia_family(all: bool, seed: u64) -> Vec<String> {
+    let mut out = vec![];
+    for (i, wt) in ALL_TYS.iter().enumerate() {
+        for (j, ct) in ALL_TYS.iter().enumerate() {
+            let chosen = all || (i < 4 && j < 4 && j == (i + seed as usize) % 4) || (i == 4 && j == 4);
+            if !chosen { continue; }
+            let fixed = vec![rule("WHITESPACE", *wt, lit1(" ")), rule("COMMENT", *ct, seq_of(vec![lit1("5"), idn("cb")])), rule("cb", Ty::Normal, rep(lit1("y")))];
+            let mut cands = vec![];
+            for t in ALL_TYS.iter() {
+                for (x, short) in [("WHITESPACE", "w"), ("COMMENT", "c")] {
+                    cands.push(rule(&format!("e{}_{}", ty_char(*t), short), *t, seq_of(vec![lit1("x"), idn(x), lit1("x")])));
+                }
+            }
+            cands.extend(vec![
+                rule("mix_a", Ty::Atomic, rep1(cho(idn("WHITESPACE"), cho(idn("COMMENT"), lit1("x"))))),
+                rule("mix_n", Ty::Normal, seq_of(vec![lit1("x"), opt(idn("WHITESPACE")), rep(idn("COMMENT")), lit1("x")])),
+                rule("mix_c", Ty::Compound, seq_of(vec![lit1("x"), rep1(idn("WHITESPACE")), opt(idn("COMMENT")), lit1("y")])),
+                rule("pred_a", Ty::Atomic, seq_of(vec![lit1("x"), GE::Neg(bx(idn("WHITESPACE"))), GE::Pos(bx(idn("COMMENT"))), lit1("5")])),
+                rule("pred_n", Ty::Normal, seq_of(vec![lit1("x"), GE::Neg(bx(idn("COMMENT"))), GE::Pos(bx(idn("WHITESPACE"))), lit1(" ")])),
+                rule("h_s", Ty::Silent, seq_of(vec![idn("WHITESPACE"), opt(lit1("y"))])),
+                rule("h_n", Ty::Normal, idn("COMMENT")),
+                rule("h_x", Ty::NonAtomic, seq_of(vec![lit1("x"), idn("WHITESPACE"), lit1("x")])),
+                rule("via_a", Ty::Atomic, seq_of(vec![lit1("x"), idn("h_s")])),
+                rule("via_c", Ty::Compound, seq_of(vec![idn("h_n"), lit1("x")])),
+                rule("via_x", Ty::Atomic, seq_of(vec![idn("h_x"), opt(idn("h_n"))])),
+            ]);
+            out.push(pest_grammar(&keep_valid(fixed, cands)));
+        }
+    }
+    out
+}
+
+/// grammar-extras: node tags on every kind of operator (`*`, `+`, `?`, counted repetitions, choice, sequence, both predicates, PUSH,
+/// literals, rule calls, inside repetitions) in non-atomic rules with WHITESPACE and COMMENT, once with silent trivia and once with
+/// trivia that produces tokens, and in a non-atomic rule entered from an atomic one.  Tags directly on `?` / `*` (the known class
+/// C02-node-tag: which node gets the label differs) are kept in grammars of their own; there the two back-ends are compared with the
+/// labels erased.
+pub fn tag_family() -> Vec<String> {
+    let mut out = vec![];
+    let a = || idn("a"); let b = || idn("b");
+    for silent in [true, false] {
+        let tt = if silent { Ty::Silent } else { Ty::Normal };
+        let fixed = || vec![rule("WHITESPACE", tt, lit1(" ")), rule("COMMENT", if silent { Ty::Silent } else { Ty::Compound }, lit1("5")), rule("a", Ty::Normal, lit1("x")), rule("b", Ty::Normal, lit1("y"))];
+        let in_h = vec![
+            rule("t_rep1", Ty::Normal, seq_of(vec![tag("t", rep1(a())), opt(b())])),
+            rule("t_rep1_end", Ty::Normal, tag("t", rep1(a()))),
+            rule("t_exact", Ty::Normal, tag("t", GE::RepX(bx(a()), 2))),
+            rule("t_min", Ty::Normal, seq_of(vec![tag("t", GE::RepMin(bx(a()), 1)), opt(b())])),
+            rule("t_mm", Ty::Normal, seq_of(vec![tag("t", GE::RepMM(bx(a()), 1, 2)), b()])),
+            rule("t_cho", Ty::Normal, seq_of(vec![tag("t", cho(a(), b())), opt(a())])),
+            rule("t_seq", Ty::Normal, seq_of(vec![tag("t", seq_of(vec![a(), b()])), opt(a())])),
+            rule("t_pos", Ty::Normal, seq_of(vec![tag("t", GE::Pos(bx(a()))), a(), opt(b())])),
+            rule("t_neg", Ty::Normal, seq_of(vec![tag("t", GE::Neg(bx(a()))), b(), opt(a())])),
+            rule("t_push", Ty::Normal, seq_of(vec![tag("t", GE::Push(bx(a()))), b(), idn("POP")])),
+            rule("t_lit", Ty::Normal, seq_of(vec![tag("t", lit1("x")), tag("u", b())])),
+            rule("t_inrep", Ty::Normal, rep(seq_of(vec![tag("t", a()), tag("u", b())]))),
+            rule("t_inrep1", Ty::NonAtomic, seq_of(vec![rep1(tag("t", cho(a(), b()))), idn("EOI")])),
+            rule("h_x", Ty::NonAtomic, seq_of(vec![tag("t", rep1(a())), b()])),
+            rule("t_via", Ty::Atomic, seq_of(vec![idn("h_x"), opt(lit1(" "))])),
+            rule("t_comp", Ty::Compound, seq_of(vec![tag("t", rep1(a())), lit1(" "), b()])),
+        ];
+        let known = vec![
+            rule("k_rep", Ty::Normal, seq_of(vec![tag("t", rep(a())), b()])),
+            rule("k_rep_end", Ty::Normal, tag("t", rep(a()))),
+            rule("k_rep_lit", Ty::Normal, seq_of(vec![lit1("y"), tag("t", rep(lit1("x")))])),
+            rule("k_opt", Ty::Normal, seq_of(vec![a(), tag("t", opt(b())), opt(a())])),
+            rule("k_opt_end", Ty::Normal, seq_of(vec![a(), tag("t", opt(b()))])),
+            rule("k_max", Ty::Normal, seq_of(vec![tag("t", GE::RepMax(bx(a()), 2)), opt(b())])),
+            rule("k_min0", Ty::Normal, seq_of(vec![tag("t", GE::RepMin(bx(a()), 0)), opt(b())])),
+            rule("k_reprep", Ty::Normal, rep(seq_of(vec![b(), tag("t", rep(a()))]))),
+            rule("h_k", Ty::NonAtomic, tag("t", rep(a()))),
+            rule("k_via", Ty::Atomic, seq_of(vec![idn("h_k"), opt(lit1(" ")), opt(b())])),
+            rule("k_comp", Ty::Compound, seq_of(vec![idn("h_k"), lit1(" "), b()])),
+            rule("k_cho", Ty::Normal, seq_of(vec![cho(seq_of(vec![tag("t", rep(a())), b()]), tag("u", opt(a()))), opt(lit1("y"))])),
+        ];
+        out.push(pest_grammar(&keep_valid(fixed(), in_h)));
+        out.push(pest_grammar(&keep_valid(fixed(), known)));
+    }
+    out
+}
+
+/// random members of the tag family: a tag directly on a random operator over rule calls / literals, in a rule of a random modifier,
+/// with trivia rules of random modifiers
+fn gen_tagged(r: &mut Rng) -> Vec<GRule> {
+    let n = 2 + r.below(2) as usize;
+    let mut g: Vec<GRule> = vec![];
+    let leaf = |r: &mut Rng| match r.below(4) { 0 => lit1("x"), 1 => lit1("y"), 2 => idn("a"), _ => idn("b") };
+    for i in 0..n {
+        let x = leaf(r);
+        let body = match r.below(10) {
+            0 | 1 => rep(x), 2 => rep1(x), 3 => opt(x), 4 => GE::RepMM(bx(x), r.below(2) as u32, 2), 5 => cho(x, leaf(r)), 6 => seq_of(vec![x, leaf(r)]),
+            7 => GE::Neg(bx(x)), 8 => GE::Push(bx(x)), _ => GE::RepMax(bx(x), 2),
+        };
+        let mut v = vec![];
+        if r.chance(1, 2) { v.push(leaf(r)); }
+        v.push(tag(["t", "u"][r.below(2) as usize], body));
+        if r.chance(2, 3) { v.push(match r.below(4) { 0 => lit1(" "), 1 => opt(leaf(r)), 2 => idn("EOI"), _ => leaf(r) }); }
+        let e = if r.chance(1, 5) { rep(seq_of(v)) } else { seq_of(v) };
+        g.push(GRule { name: format!("r{}", i), ty: [Ty::Normal, Ty::Normal, Ty::NonAtomic, Ty::Compound, Ty::Silent, Ty::Atomic][r.below(6) as usize], e });
+    }
+    g.push(rule("a", [Ty::Normal, Ty::Silent][r.below(2) as usize], lit1("x")));
+    g.push(rule("b", Ty::Normal, cho(lit1("y"), lit1("5"))));
+    let tys = [Ty::Silent, Ty::Silent, Ty::Normal, Ty::Atomic, Ty::Compound];
+    g.push(rule("WHITESPACE", tys[r.below(5) as usize], lit1(" ")));
+    if r.chance(1, 3) { g.push(rule("COMMENT", tys[r.below(5) as usize], lit1("5"))); }
+    g
+}
+
 pub fn gen_c02(r: &mut Rng, extras: bool) -> Vec<GRule> {
     // stack-heavy families: unequal stack entries below every kind of reader (the general stream rarely stacks two values)
+    if extras && r.chance(1, 12) { return gen_tagged(r); }
     match r.below(12) {
         0 => { let mut g = gen_stack_readers(r); if r.chance(1, 3) { g.push(GRule { name: "WHITESPACE".into(), ty: Ty::Silent, e: GE::Str(" ".into()) }); } return g; }
         1 => return gen_stack_grammar(r, extras),
@@ -271,6 +432,18 @@ pub fn gen_c02(r: &mut Rng, extras: bool) -> Vec<GRule> {
         2 | 3 => { g.push(GRule { name: "WHITESPACE".into(), ty: ty(r), e: ws_body(r) }); g.push(GRule { name: "COMMENT".into(), ty: ty(r), e: cm_body(r) }); }
         4 => g.push(GRule { name: "COMMENT".into(), ty: ty(r), e: cm_body(r) }),
         _ => {}
+    }
+    // trivia rules are ordinary rules as well: in a third of the grammars that have them some literals become explicit calls of
+    // WHITESPACE / COMMENT (from rules of every modifier; not from the last rule, which a trivia body may call)
+    let tr: Vec<String> = g.iter().filter(|x| x.name == "WHITESPACE" || x.name == "COMMENT").map(|x| x.name.clone()).collect();
+    if !tr.is_empty() && r.chance(1, 3) {
+        let mut rr = Rng::new(r.next());
+        for rule in g.iter_mut().take(n.saturating_sub(1)) {
+            rule.e = map_ge(&rule.e, &mut |e| match e {
+                GE::Str(_) | GE::Range(_, _) if rr.chance(1, 3) => Some(GE::Id(tr[rr.below(tr.len() as u64) as usize].clone())),
+                _ => None,
+            });
+        }
     }
     // a user rule named like a non-keyword built-in is decided first: such grammars use the other built-ins (the ones that overlap the
     // redefined name above all) in many more places, so that a back-end in which a built-in depends on the user's rule is seen
@@ -402,7 +575,8 @@ fn main() {
             if arg(4) != "nofixed" {
                 for (_, x, text) in WITNESSES.iter() { if x.is_empty() || extras { tv_line(text, &mut w, &mut stats); } }
                 for text in PROBES.iter() { tv_line(text, &mut w, &mut stats); }
-                for text in restore_family().iter().chain(shadow_family(true, 0).iter()) { tv_line(text, &mut w, &mut stats); }
+                for text in restore_family().iter().chain(shadow_family(true, 0).iter()).chain(trivia_family(true, 0).iter()) { tv_line(text, &mut w, &mut stats); }
+                if extras { for text in tag_family().iter() { tv_line(text, &mut w, &mut stats); } }
             }
             for _ in 0..count { let g = gen_c02(&mut rng, extras); tv_line(&pest_grammar(&g), &mut w, &mut stats); }
             writeln!(w, "#SUMMARY\tevaluations={}\tdistinct_nontrivial={}\trejected={}", stats.0, stats.2, stats.1).unwrap();
@@ -440,8 +614,14 @@ fn main() {
                 WITNESSES.iter().filter(|(_, x, _)| x.is_empty() || extras).map(|(_, _, t)| t.to_string()).chain(PROBES.iter().map(|t| t.to_string())).collect()
             };
             // the per-built-in differential: every name the VM hard-codes, alone and followed by a literal
-            let builtin_texts: Vec<String> = if file.is_empty() && !extras { genread::FIXED_BUILTINS.iter().map(|n| format!("r0 = {{ {} }}\nr1 = {{ {} ~ \"x\" }}\n", n, n)).collect() } else { vec![] };
+            let builtin_texts: Vec<String> = if file.is_empty() && !extras { builtin_family() } else { vec![] };
             texts.extend(builtin_texts.iter().cloned());
+            // the explicit-trivia differential (WHITESPACE / COMMENT of every modifier named explicitly by callers of every modifier;
+            // `full`: all 25 pairs of modifiers) and, with grammar-extras, node tags on every kind of operator
+            let trivia_texts: Vec<String> = if file.is_empty() && !extras { trivia_family(arg(6) == "full", arg_u64(3, 0)) } else { vec![] };
+            texts.extend(trivia_texts.iter().cloned());
+            let tag_texts: Vec<String> = if file.is_empty() && extras { tag_family() } else { vec![] };
+            texts.extend(tag_texts.iter().cloned());
             // the restore-on-error differential (both feature sets) and the shadowing differential (one grammar per redefinable name;
             // `full` as 6th argument: both variants per name)
             let restore_texts: Vec<String> = if file.is_empty() { restore_family() } else { vec![] };
@@ -451,6 +631,7 @@ fn main() {
             let lit_mode = arg(5) == "lit";
             let mode_of = |t: &str| -> u8 {
                 if around_mode { 4 } else if lit_mode { 3 } else if builtin_texts.iter().any(|b| b == t) { 1 } else if shadow_texts.iter().any(|b| b == t) { 5 }
+                else if trivia_texts.iter().any(|b| b == t) || tag_texts.iter().any(|b| b == t) { 6 }
                 else if ["NEWLINE", "ANY", "ASCII"].iter().any(|k| t.contains(k)) || UNICODE.iter().any(|k| t.contains(k)) { 2 } else { 0 }
             };
             texts.retain(|t| derive_tokens(t).ok().and_then(|ts| syn::parse2::<syn::File>(ts).ok()).is_some());
@@ -468,8 +649,9 @@ fn main() {
                 texts.push(text);
             }
             writeln!(w, "// GENERATED by `c02 batch` - {} grammars, extras={}", texts.len(), extras).unwrap();
-            writeln!(w, "// FAMILIES restore_on_error={} shadowing={} per_builtin={}", texts.iter().filter(|t| restore_texts.contains(t)).count(),
-                texts.iter().filter(|t| shadow_texts.contains(t)).count(), texts.iter().filter(|t| builtin_texts.contains(t)).count()).unwrap();
+            writeln!(w, "// FAMILIES restore_on_error={} shadowing={} per_builtin={} explicit_trivia={} node_tags={}", texts.iter().filter(|t| restore_texts.contains(t)).count(),
+                texts.iter().filter(|t| shadow_texts.contains(t)).count(), texts.iter().filter(|t| builtin_texts.contains(t)).count(),
+                texts.iter().filter(|t| trivia_texts.contains(t)).count(), texts.iter().filter(|t| tag_texts.contains(t)).count()).unwrap();
             writeln!(w, "#![allow(warnings)]\nuse pest::Parser;").unwrap();
             for (i, t) in texts.iter().enumerate() {
                 writeln!(w, "mod g{} {{ #[derive(pest_derive::Parser)] #[grammar_inline = {}] pub struct P; }}", i, rust_str(t)).unwrap();
